@@ -284,6 +284,7 @@ fn replay<B: Cfg>(hist: &[Act], rc: bool, ctl: bool, seed: u64, build: bool) -> 
     let mut roles: Vec<Role> = vec![];
     let mut native_perms = 0usize;
     let mut sample_ext_seen = false;
+    let mut sample_bits_seen = false;
     let kc_val = emb::<B>(B::BF::from_u64(K));
     let mut kc: Option<ExprId> = None;
     let mut expose = |b: &mut CircuitBuilder<B::EF>,
@@ -330,6 +331,7 @@ fn replay<B: Cfg>(hist: &[Act], rc: bool, ctl: bool, seed: u64, build: bool) -> 
             }
             Act::Bits3 => {
                 let exp: usize = nat.sample_bits(3);
+                sample_bits_seen = true;
                 let ts = RecursiveChallenger::<B::BF, B::EF>::sample_bits(&mut cc, &mut b, 3)
                     .map_err(|e| format!("sample_bits: {e:?}"))?;
                 if ts.len() != 3 {
@@ -344,8 +346,12 @@ fn replay<B: Cfg>(hist: &[Act], rc: bool, ctl: bool, seed: u64, build: bool) -> 
             native_perms += 1;
         }
     }
-    // canonical key, exactly the C05 key (see harness/c05: buffer lengths on both sides, flags,
+    // canonical key = the C05 key (see harness/c05: buffer lengths on both sides, flags,
     // const-ness masks of the state / buffer targets, capped permutation count, sample_ext bit)
+    // REFINED by "a sample_bits happened": for the challenger state `sample_bits` is `sample`,
+    // so C05's key never needs a history containing it, but its bit decomposition (hint +
+    // boolean checks + recomposition) is one of the things C06 quantifies over. A refinement
+    // only adds histories.
     let (cs, ci, co, init, dup) = cc.verif_snapshot();
     let is_const: Vec<bool> = b.verif_snapshot().0.iter().map(|n| matches!(n, Expr::Const(_))).collect();
     let mask = |ts: &[ExprId]| -> String {
@@ -354,7 +360,7 @@ fn replay<B: Cfg>(hist: &[Act], rc: bool, ctl: bool, seed: u64, build: bool) -> 
             .collect()
     };
     let key = format!(
-        "n{}:{} c{}:{} st{} i{} d{} m{}/{}/{} p{} e{}",
+        "n{}:{} c{}:{} st{} i{} d{} m{}/{}/{} p{} e{} b{}",
         nat.input_buffer.len(),
         nat.output_buffer.len(),
         ci.len(),
@@ -366,7 +372,8 @@ fn replay<B: Cfg>(hist: &[Act], rc: bool, ctl: bool, seed: u64, build: bool) -> 
         mask(&ci),
         mask(&co),
         native_perms.min(3),
-        sample_ext_seen as u8
+        sample_ext_seen as u8,
+        sample_bits_seen as u8
     );
     let circuit = if build { Some(b.build().map_err(|e| format!("build: {e:?}"))?) } else { None };
     Ok(Replayed { key, circuit, publics, roles, native_perms })
@@ -592,6 +599,9 @@ struct Fx<B: Cfg> {
     perm_ops: Vec<usize>,
     prove_all: bool,
 }
+
+/// Quick tier: Public-table cells of the first and the last limb only (thorough: every limb).
+static F1_ALL_LIMBS: AtomicBool = AtomicBool::new(true);
 
 trait DynFx: Send + Sync {
     fn devs(&self, units: &[usize]) -> Vec<Dev>;
@@ -822,7 +832,11 @@ impl<B: Cfg> DynFx for Fx<B> {
                 Fault::F3 { slot, .. } => {
                     matches!(self.fx.definers.get(*slot as usize).cloned().flatten(), Some(Definer::PublicInput))
                 }
-                Fault::F1 { table, .. } => self.fx.cellmap.tables.get(*table).map(|t| t.as_str()) == Some("public"),
+                Fault::F1 { table, col, .. } => {
+                    let limb = col % B::D;
+                    self.fx.cellmap.tables.get(*table).map(|t| t.as_str()) == Some("public")
+                        && (F1_ALL_LIMBS.load(Ordering::Relaxed) || limb == 0 || limb == B::D - 1)
+                }
             };
             if keep {
                 v.push(Dev::Fault(f));
@@ -949,6 +963,8 @@ impl<B: Cfg> DynFx for Fx<B> {
 
 trait DynCfg: Send + Sync {
     fn name(&self) -> &str;
+    /// (depth bound in the thorough tier, depth up to which the top basis element is also used)
+    fn thorough_depth(&self) -> usize;
     fn describe(&self) -> String;
     fn state_key(&self, hist: &[Act], seed: u64) -> Result<String, String>;
     fn fixture(&self, hist: &[Act], seed: u64, prove_all: bool) -> Result<Box<dyn DynFx>, String>;
@@ -958,12 +974,16 @@ struct Inst<B: Cfg> {
     name: String,
     rc: bool,
     ctl: bool,
+    tdepth: usize,
     _p: PhantomData<fn() -> B>,
 }
 
 impl<B: Cfg> DynCfg for Inst<B> {
     fn name(&self) -> &str {
         &self.name
+    }
+    fn thorough_depth(&self) -> usize {
+        self.tdepth
     }
     fn describe(&self) -> String {
         format!(
@@ -990,19 +1010,21 @@ impl<B: Cfg> DynCfg for Inst<B> {
     }
 }
 
-fn inst<B: Cfg>(name: &str, rc: bool, ctl: bool) -> Box<dyn DynCfg> {
-    Box::new(Inst::<B> { name: name.to_string(), rc, ctl, _p: PhantomData })
+fn inst<B: Cfg>(name: &str, rc: bool, ctl: bool, tdepth: usize) -> Box<dyn DynCfg> {
+    Box::new(Inst::<B> { name: name.to_string(), rc, ctl, tdepth, _p: PhantomData })
 }
 
 fn all_instances() -> Vec<Box<dyn DynCfg>> {
     vec![
-        inst::<KbD4>("kb-d4+rc", true, false),
-        inst::<KbD5>("kb-d5-base+rc+ctl", true, true),
-        inst::<KbD4>("kb-d4", false, false),
-        inst::<BbD4>("bb-d4+rc", true, false),
-        inst::<BbD4>("bb-d4", false, false),
-        inst::<KbD5>("kb-d5-base+rc", true, false),
-        inst::<KbD5>("kb-d5-base", false, false),
+        // the first two are the quick tier (depth 3): what every D>1 / quintic recursion backend uses
+        inst::<KbD4>("kb-d4+rc", true, false, 5),
+        inst::<KbD5>("kb-d5-base+rc+ctl", true, true, 5),
+        // table combinations no backend uses by default, and the BabyBear twins
+        inst::<KbD4>("kb-d4", false, false, 4),
+        inst::<KbD5>("kb-d5-base+rc", true, false, 4),
+        inst::<KbD5>("kb-d5-base", false, false, 4),
+        inst::<BbD4>("bb-d4+rc", true, false, 3),
+        inst::<BbD4>("bb-d4", false, false, 3),
     ]
 }
 
@@ -1077,10 +1099,8 @@ fn main() {
     }
 
     // ---------------------------------------------------------------- tier
-    let depth: usize = ctx
-        .opt("depth")
-        .and_then(|s| s.parse().ok())
-        .unwrap_or(if ctx.quick() { 3 } else { 5 });
+    let depth_opt: Option<usize> = ctx.opt("depth").and_then(|s| s.parse().ok());
+    let depth_of = |c: &dyn DynCfg| depth_opt.unwrap_or(if ctx.quick() { 3 } else { c.thorough_depth() });
     let selected: Vec<&Box<dyn DynCfg>> = match ctx.opt("cfg") {
         Some(o) => insts.iter().filter(|c| c.name() == o).collect(),
         None if ctx.quick() => insts.iter().take(2).collect(),
@@ -1090,6 +1110,7 @@ fn main() {
         machinery_error("no configuration selected");
     }
     let prove_all = ctx.opt("prove") == Some("all");
+    F1_ALL_LIMBS.store(!ctx.quick(), Ordering::Relaxed);
     // soft cap: leave room for the proofs in flight and the evidence (quick: 45 s * 0.8 = 36 s)
     let over = || ctx.used() >= 0.8;
 
@@ -1099,17 +1120,26 @@ fn main() {
     let mut total_states = 0usize;
     let mut total_transitions = 0usize;
     for (ci, cfg) in selected.iter().enumerate() {
-        let (hs, tr) = bfs_states(cfg.as_ref(), depth, ctx.seed)
+        let (hs, tr) = bfs_states(cfg.as_ref(), depth_of(cfg.as_ref()), ctx.seed)
             .unwrap_or_else(|e| machinery_error(&format!("{}: automaton exploration: {e}", cfg.name())));
         total_states += hs.len();
         total_transitions += tr;
         per_cfg.push(json!({"config": cfg.describe(), "automaton_states_within_depth": hs.len(),
-            "automaton_transitions_executed": tr, "depth": depth}));
+            "automaton_transitions_executed": tr, "depth": depth_of(cfg.as_ref())}));
         for h in hs {
             plan.push((ci, h));
         }
     }
 
+    let depth = selected.iter().map(|c| depth_of(c.as_ref())).max().unwrap_or(0);
+    if ctx.opt("dry").is_some() {
+        for (ci, cfg) in selected.iter().enumerate() {
+            let per_level: Vec<usize> =
+                (0..=depth).map(|l| plan.iter().filter(|(c, h)| *c == ci && h.len() == l).count()).collect();
+            println!("{}: states per level {:?}", cfg.name(), per_level);
+        }
+        std::process::exit(0);
+    }
     let histo = Histo::new();
     let site_histo = Histo::new();
     let samples: Mutex<Vec<Value>> = Mutex::new(vec![]);
@@ -1172,7 +1202,7 @@ fn main() {
         }
         let units: Vec<Vec<usize>> = fxs
             .iter()
-            .map(|f| if ctx.quick() || f.degree() == 1 { vec![0] } else { vec![0, f.degree() - 1] })
+            .map(|f| if ctx.quick() || f.degree() == 1 || level > 3 { vec![0] } else { vec![0, f.degree() - 1] })
             .collect();
         // tasks in order; a work queue keeps the processing order close to the list order
         let mut tasks: Vec<(usize, Dev)> = vec![];
@@ -1333,7 +1363,7 @@ fn main() {
         "histogram_family_class_outcome": histo.to_json(),
         "histogram_family_site_outcome": site_histo.to_json(),
         "cases": fixtures_json,
-        "delta_units": if ctx.quick() { json!([0]) } else { json!([0, "D-1"]) },
+        "delta_units": if ctx.quick() { json!([0]) } else { json!("histories of length <= 3: base unit and top basis element; longer: base unit") },
         "oracle": "native p3_challenger::DuplexChallenger replayed on the observed values committed in the Public table; committed sampled challenge = public output / 7",
     });
     if crosscheck_bad > 0 {
